@@ -119,6 +119,8 @@ func macroAlphabet() []token {
 	}
 }
 
+func forced() oracle.KPItem { return pen(0, -text.Infinity, false) }
+
 func finishing() []oracle.KPItem {
 	return []oracle.KPItem{glue(0, text.Infinity, 0), pen(0, -text.Infinity, false)}
 }
@@ -519,9 +521,41 @@ func wordFamily(maxWords int) fw.Family {
 	}
 }
 
+var gapGlues = []oracle.KPItem{glue(1, 1, 1), glue(1, 2, 0), glue(2, 2, 0), glue(2, 1, 1)}
+
+// gapItems decodes index i of gapFamily(maxWords).
+func gapItems(i int64, maxWords int) []oracle.KPItem {
+	glues := gapGlues
+	count := func(n int) int64 {
+		c := int64(1)
+		for k := 0; k < n; k++ {
+			c *= 3
+		}
+		for k := 0; k < n-1; k++ {
+			c *= int64(len(glues))
+		}
+		return c
+	}
+	n := 1
+	for i >= count(n) {
+		i -= count(n)
+		n++
+	}
+	var items []oracle.KPItem
+	for j := 0; j < n; j++ {
+		if j > 0 {
+			items = append(items, glues[i%int64(len(glues))])
+			i /= int64(len(glues))
+		}
+		items = append(items, box(float64(1+i%3)))
+		i /= 3
+	}
+	return append(items, finishing()...)
+}
+
 // gapFamily: exactly-n-or-fewer words of width 1..3 with an independently chosen glue in every gap.
 func gapFamily(maxWords int) fw.Family {
-	glues := []oracle.KPItem{glue(1, 1, 1), glue(1, 2, 0), glue(2, 2, 0), glue(2, 1, 1)}
+	glues := gapGlues
 	// index = sum over shorter lengths + (words base 3, gaps base 4)
 	count := func(n int) int64 { // paragraphs of exactly n words
 		c := int64(1)
@@ -537,25 +571,49 @@ func gapFamily(maxWords int) fw.Family {
 	for n := 1; n <= maxWords; n++ {
 		total += count(n)
 	}
-	build := func(i int64) []oracle.KPItem {
-		n := 1
-		for i >= count(n) {
-			i -= count(n)
-			n++
-		}
-		var items []oracle.KPItem
-		for j := 0; j < n; j++ {
-			if j > 0 {
-				items = append(items, glues[i%int64(len(glues))])
-				i /= int64(len(glues))
-			}
-			items = append(items, box(float64(1+i%3)))
-			i /= 3
-		}
-		return append(items, finishing()...)
-	}
+	build := func(i int64) []oracle.KPItem { return gapItems(i, maxWords) }
 	return fw.Family{
 		Name: "words-with-independent-gaps+finish", N: total,
+		Check: func(i int64, r *fw.R) {
+			items := build(i)
+			r.NontrivialIdx()
+			for _, w := range widths {
+				CheckOne(r, items, w)
+			}
+			r.Count("sequence_x_width", int64(len(widths)))
+		},
+		Desc: func(i int64) string {
+			items := build(i)
+			return FmtItems(items) + " features=" + features(items, Params())
+		},
+	}
+}
+
+// twoParagraphs: a paragraph of <= n1 words with independent gaps that ends in a forced break
+// WITHOUT the infinitely stretchable finishing glue (what GlyphsToItems emits for centred text),
+// followed by a second paragraph of <= n2 words with the usual finish. The line that ends at the
+// inner forced break can then fall into any fitness class, and several routes with the same
+// number of lines reach the forced break.
+func twoParagraphs(n1, n2 int, bare bool) fw.Family {
+	a, b := gapFamily(n1), gapFamily(n2)
+	na, nb := a.N, b.N
+	build := func(i int64) []oracle.KPItem {
+		first := gapItems(i%na, n1)
+		second := gapItems(i/na, n2)
+		items := append([]oracle.KPItem{}, first[:len(first)-2]...) // drop Glue(0,inf,0) Penalty(-inf)
+		items = append(items, forced())
+		if bare {
+			items = append(items, second[:len(second)-2]...)
+			return append(items, forced())
+		}
+		return append(items, second...)
+	}
+	name := fmt.Sprintf("two paragraphs (<=%d and <=%d words with independent gaps), the first ending in a bare forced break", n1, n2)
+	if bare {
+		name = fmt.Sprintf("two paragraphs (<=%d and <=%d words with independent gaps), both ending in a bare forced break", n1, n2)
+	}
+	return fw.Family{
+		Name: name, N: na * nb,
 		Check: func(i int64, r *fw.R) {
 			items := build(i)
 			r.NontrivialIdx()
@@ -586,9 +644,16 @@ func families(tier string) []fw.Family {
 		wordFamily(d - 1),
 		withTunables(wordFamily(d-2), tunables{1, 1, 10000, 10000}),
 		gapFamily(6),
+		twoParagraphs(4, 2, true),
+		withTunables(twoParagraphs(5, 2, true), tunables{1, 1, 10000, 10000}),
+		withTunables(twoParagraphs(4, 2, false), tunables{3, 10, 3000, 300}),
 	}
 	if tier == "thorough" {
-		fs = append(fs, withTunables(gapFamily(g), tunables{0.5, 10, 100, 100}))
+		fs = append(fs, withTunables(gapFamily(g), tunables{0.5, 10, 100, 100}),
+			twoParagraphs(5, 3, true),
+			withTunables(twoParagraphs(5, 3, true), tunables{1, 1, 10000, 10000}),
+			withTunables(twoParagraphs(5, 3, false), tunables{1, 1, 10000, 10000}),
+			withTunables(twoParagraphs(5, 3, true), tunables{3, 10, 3000, 300}))
 	}
 	fs = append(fs,
 		unterminatedFamily(baseAlphabet(), 4),
@@ -628,7 +693,7 @@ func Prop() *fw.Property {
 		Level: "exploration",
 		Rule: "every item sequence of length <= 5 (quick) / 6 (thorough) over {Box 1/2/3, Glue(1;y in 0,1,2;z in 0,1), Glue(0,2,0), Penalty 0, Penalty(w=1,50,flagged), Penalty -inf, Penalty +inf, Penalty -50} " +
 			"every sequence of length <= 6 / 8 over the reduced alphabet {Box 1/2, Glue(1,1,1), Glue(1,2,0), Penalty 0, Penalty(w=1,50,flagged), Penalty -inf}, " +
-			"and every sequence of <= 3 / 5 of the item groups GlyphsToItems emits (spaces, soft hyphens, newlines per alignment), each followed by Glue(0,inf,0)+Penalty(-inf), x widths 2..9, looseness 0; " +
+			"and every sequence of <= 3 / 5 of the item groups GlyphsToItems emits (spaces, soft hyphens, newlines per alignment), each followed by Glue(0,inf,0)+Penalty(-inf), and two-paragraph sequences (<= 5 + <= 2 / 3 words of width 1..3 with an independently chosen glue in every gap) whose paragraphs end in a forced break without the finishing glue (what centred text produces), x widths 2..9, looseness 0; " +
 			"text.Linebreak compared with the brute force over ALL subsets of legal breakpoints that contain every forced break (paper's discard rule, ratio, badness, demerits; package tunables); " +
 			"one evaluation = one sequence at all 8 widths; non-trivial = at least one box and at least two legal breakpoints",
 		Assumptions: []string{
